@@ -289,6 +289,29 @@ pub fn udp_rules(s: &mut Session, cr: &mut Crafter, rng: &mut Rng) {
     }
 }
 
+/// the salt cache in real time: a request stamped 29 s ahead of the server clock stays acceptable for 59 s; its salt
+/// must still be remembered 32 s later.  Run in the thorough tier, and in the quick tier whenever the lifetime read
+/// from the source is not the documented 2*30+1 s (or could not be read).
+fn salt_lifetime_realtime(s: &mut Session, cr: &mut Crafter, rng: &mut Rng) {
+    let cipher = "2022-blake3-aes-128-gcm";
+    let cfg = random_cfg(rng, cipher, false);
+    let addr = random_addr(rng);
+    s.begin_case("ss2022-server:salt-lifetime-realtime");
+    let target = unhex(&s.run(&format!("addr.enc s5 {}", addr))).unwrap_or_default();
+    let su = SsSetup { cipher, cfg, addr, target };
+    let sc = s.fresh("sc");
+    s.run(&format!("ss.sctx {} cipher={} password={} users=-", sc, cipher, su.cfg.server_password));
+    let salt = rng.bytes(16);
+    let Some(w) = ss_request(s, cr, rng, &su, &salt, now_secs() + 28, 0, b"early bird") else { return };
+    let (first, _) = present(s, &sc, &w, false);
+    std::thread::sleep(std::time::Duration::from_millis(32_500));
+    let (again, _) = present(s, &sc, &w, false);
+    if !first || again {
+        s.oracle_fail("ss2022-server:salt-lifetime", &format!("a request stamped 28 s ahead: accepted at first = {}, accepted again 32.5 s later (its timestamp still within 30 s of the clock) = {}", first, again));
+    }
+    s.mark_nontrivial();
+}
+
 pub fn generate(s: &mut Session, tier: &str, rng: &mut Rng) {
     let Some(mut cr) = Crafter::new() else {
         s.begin_case("no-driver");
@@ -309,4 +332,9 @@ pub fn generate(s: &mut Session, tier: &str, rng: &mut Rng) {
     // "... also when copies arrive concurrently": the same handshake presented by several threads at once
     crate::c09::race_cases(s, tier, rng);
     udp_rules(s, &mut cr, rng);
+    let ttl = std::env::var("VERIF_SALT_TTL").unwrap_or_else(|_| "61".into());
+    if tier == "thorough" || ttl != "61" {
+        s.count(&format!("salt-ttl-probe:{}", ttl));
+        salt_lifetime_realtime(s, &mut cr, rng);
+    }
 }
